@@ -25,14 +25,16 @@ RULE = ("well-formed images whose segment contents are covered by sections (enco
         "segment with members or >= 4 sections; distinct by md5")
 ASSUMPTIONS = ["the image's segments are covered by sections in ascending address order (RoundTrippable)"]
 TRUSTED = ["tools/elfspec.py"]
-KEEP_FIRST = 1
+KEEP_FIRST = 2
 SHRINK = False
 
 
 def mk(cid, img, rng, edit, meta):
     ns, ng = counts(img)
     obs = observe_lines(img, max_sec=60, max_seg=16)
-    lines = [f"load {hx(img)} lazy={rng.choice([0, 1])} kind=str"] + obs
+    # object 0 is the reference observation (eager); object 1 is loaded (often lazily) and NOT looked at
+    # before it is edited and saved, so untouched lazily loaded data has to survive the re-layout
+    lines = ["obj 0", f"load {hx(img)} lazy=0 kind=str"] + obs + ["obj 1", f"load {hx(img)} lazy={rng.choice([0, 1, 1])} kind=str"]
     d = elfspec.decode(img)
     touched = []
     if edit == "addsec":
@@ -69,9 +71,9 @@ def oracle(case, out):
         if o.startswith("FAULT"):
             return [{"signature": "fault:" + case["lines"][min(i, len(case["lines"]) - 1)].split()[0], "what": o}]
     n = case["meta"]["nobs"]
-    if not out or not out[0].startswith("load=true"):
+    if len(out) < 2 or not out[1].startswith("load=true"):
         return []
-    before = out[1:1 + n]
+    before = out[2:2 + n]
     si = next((k for k, o in enumerate(out) if o.startswith("save=")), None)
     if si is None or si + 2 + n > len(out) + 0:
         return []
@@ -81,7 +83,7 @@ def oracle(case, out):
         return [{"signature": "reload-failed", "what": "the re-saved file does not load"}]
     after = out[si + 2:si + 2 + n]
     v = []
-    lines = case["lines"][1:1 + n]
+    lines = case["lines"][2:2 + n]
     secs_after = {}
     for ln, a, b in zip(lines, before, after):
         t = ln.split()
@@ -113,8 +115,8 @@ def oracle(case, out):
 
 
 def nontrivial(case, out):
-    return bool(out) and out[0].startswith("load=true") and any("members=" in o and "members=-" not in o for o in out)
+    return len(out) > 1 and out[1].startswith("load=true") and any("members=" in o and "members=-" not in o for o in out)
 
 
 def classify(case, out):
-    return [case["meta"]["src"], "edit:" + case["meta"]["edit"], "loaded" if out and out[0].startswith("load=true") else "rejected"]
+    return [case["meta"]["src"], "edit:" + case["meta"]["edit"], "loaded" if len(out) > 1 and out[1].startswith("load=true") else "rejected"]
